@@ -306,3 +306,42 @@ func HarnessC04Reify() {
 	verif.Assert(p1 == p, "C04/reify-kernel/predicate-triple-points-to-the-predicate")
 	verif.Assert(ts[3].Object().String() == o.String(), "C04/reify-kernel/object-triple-points-to-the-object")
 }
+
+// C05 (d'): a triple whose object is a text literal of N symbolic 7-bit bytes
+// (brackets, quotes, slashes and blanks included, i.e. text that looks like the
+// separators triple.Parse searches for) prints to a line that parses back to
+// the same triple.
+func HarnessC05TripleText() {
+	n := 1 + verif.Choice("len", verif.Param("N", 3))
+	txt := verif.String("txt", n)
+	for i := 0; i < n; i++ {
+		verif.Assume(verif.And(txt[i] < 0x80, verif.And(txt[i] != '\n', txt[i] != '\r')))
+	}
+	s, err := node.NewNodeFromStrings("/u", "a")
+	verif.Assume(err == nil)
+	p, err := predicate.NewImmutable("p")
+	verif.Assume(err == nil)
+	l, err := literal.DefaultBuilder().Build(literal.Text, txt)
+	verif.Assume(err == nil)
+	t, err := triple.New(s, p, triple.NewLiteralObject(l))
+	verif.Assume(err == nil)
+	line := t.String()
+	var t2 *triple.Triple
+	var perr error
+	if !noPanic("C05/triple-text/no-panic", func() { t2, perr = triple.Parse(line, literal.DefaultBuilder()) }) {
+		return
+	}
+	verif.Reach("parsed")
+	verif.Assert(perr == nil, "C05/triple-text/parses-back")
+	if perr != nil || t2 == nil {
+		return
+	}
+	l2, lerr := t2.Object().Literal()
+	verif.Assert(lerr == nil, "C05/triple-text/object-is-a-literal")
+	if lerr != nil {
+		return
+	}
+	got, terr := l2.Text()
+	verif.Assert(terr == nil && got == txt, "C05/triple-text/same-text")
+	verif.Assert(t2.String() == line, "C05/triple-text/reprint")
+}
